@@ -19,7 +19,7 @@ def attrsOf : Kind → List Attr
   | .scalar => [.name, .optional, .default, .validators]
   | .enum => [.name, .optional, .default, .validators, .validValues]
   | .ref => [.name, .optional, .default, .validators, .targetPath]
-  | .dict => [.name, .optional, .default, .validators, .descentValidators, .fieldSchema]
+  | .dict => [.name, .optional, .default, .validators, .descentValidators, .fieldSchema, .policy]
   | .seq => [.name, .optional, .default, .validators, .descentValidators, .memberSchema]
   | .compound => [.name, .optional, .default, .validators, .descentValidators, .fieldSchema]
 
@@ -27,6 +27,7 @@ def attrName : Attr → String
   | .name => "name" | .optional => "optional" | .default => "default" | .validators => "validators"
   | .descentValidators => "descent_validators" | .memberSchema => "member_schema"
   | .fieldSchema => "field_schema" | .validValues => "valid_values" | .targetPath => "target_path"
+  | .policy => "policy"
 
 def parseKwName (s : String) : KwName :=
   match s with
@@ -34,6 +35,7 @@ def parseKwName (s : String) : KwName :=
   | "validators" => .attr .validators | "descent_validators" => .attr .descentValidators
   | "properties" => .properties
   | "field_schema" => .attr .fieldSchema
+  | "policy" => .attr .policy
   | _ => .bogus
 
 def parseKwVal (n : KwName) (j : Json) : Except String KwVal :=
@@ -120,6 +122,7 @@ def cval (σ : State) (a : Attr) (v : Option Val) : Json :=
     | some (.anonDict r) => obj [("anon_dict", ofList ofItem (σ.items r))]
     | _ => Json.null
   | .optional => match v with | some (.bool b) => Json.bool b | _ => Json.bool false
+  | .policy => match v with | some v => ofAtom v | none => Json.str "subset"
   | _ => match v with | some v => ofAtom v | none => Json.null
 
 def snapshotCls (σ : State) (c : ClassId) (ids : List (Ref × Nat)) : Json × List (Ref × Nat) := Id.run do
@@ -192,7 +195,18 @@ def runChain (j : Json) : Except String Json := do
     agrees := agrees && Spec.frameHolds σ σ' s && Spec.wfB σ'
     σ := σ'
     prev := now
-  return obj [("start", Json.arr start.toArray), ("steps", Json.arr out), ("spec_agrees", Json.bool agrees)]
+  -- final phase: what every class shows at the end (`field_schema_mapping` keys), then what a plain
+  -- instantiation of each class does, in order
+  let mappings := (List.range σ.classes.length).map (fun c =>
+    if kindHas (σ.kindOf c) .fieldSchema then ofList ofAtom (mappingKeys σ c) else Json.null)
+  let mut plains : Array Json := #[]
+  for c in List.range σ.classes.length do
+    let (σ', r) := step σ (.inst c [])
+    plains := plains.push (Json.str (resName r))
+    σ := σ'
+  return obj [("start", Json.arr start.toArray), ("steps", Json.arr out),
+    ("final", obj [("mapping", Json.arr mappings.toArray), ("plain", Json.arr plains)]),
+    ("spec_agrees", Json.bool agrees)]
 
 def parseField (j : Json) : Except String Field := do
   match (← arr j) with
